@@ -554,6 +554,14 @@ def run(rep, progs, tier):
         rep.check(len(EXTRACTORS) >= 4, "C16.fields.floor", cfg + "/field extractors found", "responses/mod.rs",
                   "fewer than 4 field extractors found structurally (%s)" % sorted(EXTRACTORS))
         fields_rule(rep, prog, cfg)
+        # list / tagtypes / grouped replies carry tag names: each decodes to the tag of that name (tables via the C20 machinery)
+        from .C20 import tag_key_problems
+        r = tag_key_problems(prog)
+        if r is None:
+            rep.fail("C16.enums", cfg + "/tag names decode to the tag of that name", "mpd_client/src/tag.rs", "cannot extract Tag::as_str / Tag::try_from tables (failing closed)")
+        else:
+            rep.check(not r[0], "C16.enums", cfg + "/tag names decode to the tag of that name", r[0][0][0] if r[0] else "mpd_client/src/tag.rs",
+                      "; ".join(m for _, m in r[0]), detail={"named_tags": r[1]})
         enums_rule(rep, prog, cfg)
         pairs_rule(rep, prog, cfg)
         sticker_rule(rep, prog, cfg)
